@@ -181,7 +181,10 @@ func (vm *VM) run() (Addr, bool) {
 			var ok bool
 			if v.IsValid() {
 				if w, isScriggoType := t.(ScriggoType); isScriggoType {
-					v, ok = w.Unwrap(v)
+					var u reflect.Value
+					if u, ok = w.Unwrap(v); ok {
+						v = u
+					}
 				} else {
 					if t.Kind() == reflect.Interface {
 						ok = v.Type().Implements(t)
@@ -197,7 +200,7 @@ func (vm *VM) run() (Addr, bool) {
 					var concrete reflect.Type
 					var method string
 					if v.IsValid() {
-						concrete = v.Type()
+						concrete = vm.env.typeof(v)
 						if t.Kind() == reflect.Interface {
 							method = missingMethod(concrete, t)
 						}
